@@ -147,7 +147,7 @@ from harness import carriers  # noqa: E402
 
 def _cfg_fire(tier):
     out = []
-    K = 12 if tier == 'quick' else 40
+    K = 12 if tier == 'quick' else 24
     plan = [('C', 100.0, dict(relative_deg=2.0)), ('B', 60.0, dict()), ('A', 100.0, dict(look_deg=25.0))] if tier == 'quick' else \
         [('C', 100.0, dict(relative_deg=2.0)), ('B', 60.0, dict()), ('A', 100.0, dict(look_deg=25.0)), ('A', 100.0, dict()), ('C', 100.0, dict(relative_deg=30.0)), ('A', 30.0, dict(look_deg=-15.0))]
     for (c, step, kw) in plan:
@@ -167,7 +167,7 @@ SEGS = [(10.0, 1.2), (6.0, -2.0), (14.0, 0.4)]       # (mph, direction from, rad
          must_reach=['check:order_of_input_does_not_matter', 'check:each_step_uses_the_segment_in_force', 'check:later_segments_do_not_change_earlier_rows',
                      'check:mirror_negates_windage_only', 'check:zero_speed_is_no_wind'],
          bounds='carriers C (twist 0), B, A with a 25 deg sight line [thorough: + level A, inclined C, finer downhill A] with concrete wind vectors per segment and SYMBOLIC until-distances (n = 2; thorough 2..3) '
-                'in any order: one cell per assignment of switch points to integration steps; horizon K <= 12 (quick) / 40 (thorough) steps',
+                'in any order: one cell per assignment of switch points to integration steps; horizon K <= 12 (quick) / 24 (thorough) steps',
          outside=['"head and tail winds change drop and time of flight in opposite senses" beyond one step: compared on three concrete carrier runs (test strength)'])
 def c12_fire(ctx, carrier, step_ft, kw, n, rmax, ulo, uhi):
     p, tc = pybc(), _tc()
